@@ -143,6 +143,8 @@ def eq(a, b):
         if a is NONE and b is NONE:
             return z3.BoolVal(True)
         o = b if a is NONE else a
+        if isinstance(o, PyObj) and o.cls == "ModeView":
+            return o.fields["kind"] == 0            # kind 0 is the abstraction of `mode=None`
         if is_val(o):
             return o == NoneVal
         return z3.BoolVal(False)
